@@ -104,7 +104,7 @@ def te_str(t) -> str:
 def spec_str(spec) -> str:
     out = []
     for a in spec["abstracts"]:
-        out.append(f"{a['name']}({a['parent'] or a['style']})")
+        out.append(f"{a['name']}{'<' + str(a['weight']) + '>' if a.get('weight') is not None else ''}({a['parent'] or a['style']})")
     for c in spec["concretes"]:
         w = f"<{c['weight']}>" if c.get("weight") is not None else ""
         fs = ", ".join(f"{n}:{te_str(t)}" for n, t in c["fields"])
@@ -257,6 +257,8 @@ def materialise(spec) -> Materialised:
                 cls = abstract(type(a["name"], (), {"__module__": modname}))
         else:
             cls = abstract(type(a["name"], (classes[a["parent"]],), {"__module__": modname}))
+            if a.get("weight") is not None:
+                cls = weight(a["weight"])(cls)
         classes[a["name"]] = cls
         setattr(module, a["name"], cls)
 
@@ -285,7 +287,21 @@ def materialise(spec) -> Materialised:
     for c in spec["concretes"]:
         fields = [(fn, ann_str(ft, c["name"], fn)) for fn, ft in c["fields"]]
         bases = (classes[c["parent"]],) if c["parent"] else ()
-        cls = make_dataclass(c["name"], fields, bases=bases, namespace={"__module__": modname})
+        if c.get("style") == "plain":
+            # a production written as an ordinary class with a type-annotated __init__ (supported: see
+            # tests/representations/tree_based/nondataclass_test.py); a field-less one has no __init__ at all
+            ns = {"__module__": modname}
+            if fields:
+                params = ", ".join(f"{fn}: {ann!r}" for fn, ann in fields)
+                body = "; ".join(f"self.{fn} = {fn}" for fn, _ in fields)
+                src = f"def __init__(self, {params}):\n    {body}\n"
+                loc: dict = {}
+                exec(src, module.__dict__, loc)  # noqa: S102 - generated from the spec
+                ns["__init__"] = loc["__init__"]
+            ns["__repr__"] = lambda self: type(self).__name__ + "(" + ", ".join(f"{k}={v!r}" for k, v in vars(self).items() if not k.startswith("gengy_")) + ")"
+            cls = type(c["name"], bases, ns)
+        else:
+            cls = make_dataclass(c["name"], fields, bases=bases, namespace={"__module__": modname})
         cls.__module__ = modname
         cls.__qualname__ = c["name"]
         if c.get("weight") is not None:
@@ -379,6 +395,7 @@ class Flags:
         listops=True,  # ListSizeBetween (with custom mutate/crossover) vs LSBWLO only
         nested_generics=True,  # list[Union[..]], list[tuple[..]]
         self_refs=True,  # Union[Self, other]
+        plain_classes=True,  # some productions are ordinary classes with an annotated __init__
         unproductive=False,  # a reachable non-terminal that cannot derive any finite program
     )
 
@@ -583,6 +600,8 @@ def specs(draw, fl: Flags | None = None):
 
     def new_conc(parent, fields):
         c = {"name": f"C{len(concretes)}", "parent": parent, "weight": None, "fields": fields}
+        if fl.plain_classes and draw(st.integers(0, 5)) == 0:
+            c["style"] = "plain"
         concretes.append(c)
         return c
 
@@ -666,6 +685,10 @@ def specs(draw, fl: Flags | None = None):
         # (otherwise U0 is an abstract type without any production at all)
         concretes.append({"name": "CU1", "parent": draw(st.sampled_from(abs_names)), "weight": None, "fields": [["f0", ["ref", "U0"]]]})
     if fl.weights:
+        for a in abstracts:
+            if a["parent"] and draw(st.integers(0, 2)) == 0:
+                # a nested abstract type is itself a (weighted) production of its parent
+                a["weight"] = draw(st.one_of(st.integers(1, 5), st.sampled_from([0.5, 2.0])))
         for c in concretes:
             if c["parent"] and draw(st.booleans()):
                 lo = 0 if fl.zero_weights else 1
